@@ -76,6 +76,9 @@ func c18(r *core.Run) {
 	r.Rule("V1", "reference/data/delete vocabulary: prefix and suffix constants parse (with a placeholder id) to an object with exactly the members the unmarshalers and the store's valueObject declare; the delete-action literal is the same in service and store and uses the action constant; 'data' is the data-value member everywhere", 6)
 	r.Rule("V2", "envelopes: {result,resource,error}, {model,collection,query} and {get,call} have the same JSON member names in the service's response structs and the client package's parse structs", 3)
 	r.Rule("V6", "members the client does not declare are tolerated: the service's response envelopes may carry members (meta: status, header) that the client's Response struct does not declare; then the client package must not decode strictly (no json.Decoder.DisallowUnknownFields), otherwise such a response is classified as an internal error", 1)
+	r.Rule("V8", "an error response decodes to the error the handler supplied (shared with C05.E3): the Error(err) method of a request type answers with ToError(err) through the error funnel on every path; it does not pick a predefined static reply by testing the error (errors.Is, its code), which would drop the handler's message and data", 2)
+	r.Rule("V9", "a result response is what the encoder wrote (shared with C07.P8): every payload handed to a reply funnel is a package-level literal or the output of json.Marshal - a response spliced together from raw bytes the handler supplied (a nil or invalid json.RawMessage) is not JSON, and the client classifies it as an error instead of the result the handler gave", 4)
+	c07PayloadProvenance(r, "V9", replyFunnels(r.P), r.P.FuncsOfPkg(""))
 	r.Rule("V7", "equality looks at what the parser set: for every value class, the members of a store Value that Equal reads in that class's arm are members the value parser assigns on every path that ends in that class (the parser does not reset the others, so in a Value that is decoded into again they hold what an earlier text left behind); otherwise Equal answers from stale bytes - equal values differ, different values compare equal", 4)
 	r.Rule("V3", "decoders own their bytes: no UnmarshalJSON method of the library keeps (a slice or byte-slice conversion of) its input parameter in the receiver - the json.Unmarshaler contract lets the caller reuse the buffer, after which a retained alias changes the value's JSON and its equality", 3)
 	r.Rule("V4", "value classes are mutually exclusive: in the store's value parser every assignment of an object class (reference, delete action, data / primitive-in-data) happens on a path where exactly one of the members rid, action, data is known to be present and the other two are known to be absent - an object mixing them is invalid, not silently classified by whichever member is tested first", 3)
@@ -85,13 +88,25 @@ func c18(r *core.Run) {
 	r.Rule("B2", "escaping comes from the encoder: the only variable-length segment copied into those buffers is the first result of json.Marshal", 3)
 	if sr := p.Func("resprot.SendRequest"); sr != nil {
 		var sub ssa.CallInstruction
-		for _, c := range core.Calls(sr) {
+		for _, c := range helperCalls(p, sr) { // the subscribe step may sit in a private helper
 			if c.Common().IsInvoke() && c.Common().Method.Name() == "ChanSubscribe" {
 				sub = c
 			}
 		}
 		if sub != nil {
-			c19InboxOpen(r, "V5", sr, sub)
+			var inCaller ssa.Value
+			if sub.Parent() != sr {
+				for _, site := range p.Lift(sub, sr) {
+					if sc, ok := site.(ssa.CallInstruction); ok && sc.Value() != nil && sc.Value().Referrers() != nil {
+						for _, rf := range *sc.Value().Referrers() {
+							if ex, ok := rf.(*ssa.Extract); ok && strings.HasSuffix(types.TypeString(ex.Type(), nil), "nats.go.Subscription") {
+								inCaller = ex
+							}
+						}
+					}
+				}
+			}
+			c19InboxOpen(r, "V5", sr, sub, inCaller)
 		} else {
 			r.Unres("V5", "resprot.SendRequest", "no ChanSubscribe")
 		}
@@ -281,6 +296,9 @@ func c18(r *core.Run) {
 			fmt.Sprintf("the service's envelopes carry %v beyond what the client declares; the client package uses no strict decoder, so they are ignored", extra),
 			fmt.Sprintf("the service's response envelopes carry the member(s) %v that the client's Response struct does not declare, and the client package decodes strictly (%s): a response with a status or header (meta) is rejected and classified as an internal error instead of the result, resource or error the handler sent", extra, strings.Join(strict, "; ")))
 	}
+
+	// ---- V8: a handler's error reaches the client as supplied --------------------------
+	c05ErrorMethodVerbatim(r, "V8")
 
 	// ---- V7: Equal reads only what the parser wrote for that class ------------------
 	c18EqualReadsWhatParserWrote(r, "V7")
